@@ -458,6 +458,9 @@ func getLSAs(num uint32, data []byte) ([]LSA, error) {
 	var offset uint32 = 0
 	for ; i < num; i++ {
 		var content interface{}
+		if uint32(len(data)) < offset+20 {
+			return nil, fmt.Errorf("Link State header too short at offset %d", offset)
+		}
 		lstype := binary.BigEndian.Uint16(data[offset+2 : offset+4])
 		lsalength := binary.BigEndian.Uint16(data[offset+18 : offset+20])
 
